@@ -171,7 +171,7 @@ func CheckMain(args []string) int {
 	go func() { _, e := BuildReplay(); buildErr <- e }()
 
 	if plan.TimeCap == 0 {
-		plan.TimeCap = 150 * time.Second
+		plan.TimeCap = 280 * time.Second
 		if tier == "thorough" {
 			plan.TimeCap = 40 * time.Minute
 		}
